@@ -241,8 +241,11 @@ def _get_all_filtered_from_db(context, filters):
             [str(n) for n in filters['name_in']]
         ))
     if 'prefix' in filters:
+        # autoescape: '_' and '%' in the prefix are ordinary characters,
+        # not LIKE wildcards.
         query = query.filter(
-            models.Trait.name.like(str(filters['prefix'] + '%')))
+            models.Trait.name.startswith(str(filters['prefix']),
+                                         autoescape=True))
     if 'associated' in filters:
         if filters['associated']:
             query = query.join(
